@@ -23,6 +23,7 @@ access = {"a":"pos","i":n} | {"a":"name","k":key} | {"a":"iter"} | {"a":"len"} |
 import json
 import os
 import re
+import sys
 from fractions import Fraction
 
 from core.engine import Property, F
@@ -148,8 +149,11 @@ def enc_apply(enc, v):
             return v * 2
         return ErrCell("TypeError")
     if enc == "anum":
-        if isinstance(v, str) and not isinstance(v, Cat):
-            return int(v) if INT_RE.match(v) else ErrCell("ValueError")
+        if isinstance(v, int):
+            return v
+        s = v.s if isinstance(v, Cat) else v
+        if isinstance(s, str):
+            return int(s) if INT_RE.match(s) else ErrCell("ValueError")
         return ErrCell("TypeError")
     if enc == "astr":
         return None if v == "?" else v
@@ -237,6 +241,8 @@ def eager_base(case, raw):
         if base["wrap"] == "arff":
             encs = [col_enc(c, False) for c in base["cols"]]
             names = [c["name"] for c in base["cols"]]
+            if len(names) != len(vals) or len(set(names)) != len(vals):
+                raise Undefined("header does not name every column exactly once")
             vals = [lazy_enc_apply(e, v) for e, v in zip(encs, vals)]
             hdr = {n: i for i, n in enumerate(names)}
         elif base["wrap"] == "lazy":
@@ -246,6 +252,8 @@ def eager_base(case, raw):
                     raise Undefined("encoder count")
                 vals = [lazy_enc_apply(e, v) for e, v in zip(encs, vals)]
             if base.get("hdr") is not None:
+                if len(base["hdr"]) != len(vals) or len(set(base["hdr"])) != len(vals):
+                    raise Undefined("header does not name every column exactly once")
                 hdr = {n: i for i, n in enumerate(base["hdr"])}
         return ED(vals, hdr)
     d = {k: cell_from_json(c) for k, c in raw}
@@ -278,15 +286,16 @@ def eager_stage(kind, e, st):
     if kind == "dense":
         n = len(e.vals)
         if op == "head":
+            # a header names every column exactly once (a mapping lists the columns in order)
             if "map" in st:
-                hdr = {}
-                for name, k in st["map"]:
-                    hdr[name] = k
+                names = [name for name, _ in st["map"]]
+                if [k for _, k in st["map"]] != list(range(n)):
+                    raise Undefined("header mapping does not list the columns in order")
             else:
-                hdr = {}
-                for i, name in enumerate(st["names"]):
-                    hdr[name] = i
-            return ED(e.vals, hdr, e.lab)
+                names = list(st["names"])
+            if len(names) != n or len(set(names)) != n:
+                raise Undefined("header does not name every column exactly once")
+            return ED(e.vals, {name: i for i, name in enumerate(names)}, e.lab)
         if op == "encode":
             if "seq" in st:
                 if len(st["seq"]) != n:
@@ -520,6 +529,22 @@ def eager_feats(e):
 
 
 UNDEF = {"u": 1}
+_OPEN = None
+
+
+def open_sig(sig):
+    """is the recorded finding with this signature still open (known/C13.json)? While it is, the (A) comparison is suspended
+    where the model (which mirrors the repaired code) necessarily differs from the unrepaired code."""
+    global _OPEN
+    if _OPEN is None:
+        _OPEN = set()
+        path = os.path.join(os.path.dirname(os.path.dirname(os.path.dirname(os.path.abspath(__file__)))), "known", "C13.json")
+        if os.path.exists(path):
+            with open(path, encoding="utf-8") as f:
+                for k in json.load(f).get("findings", []):
+                    if k.get("status", "open") == "open":
+                        _OPEN.add(k["sig"])
+    return sig in _OPEN
 
 
 def val(v):
@@ -699,7 +724,7 @@ def perturb(plain, how):
         if how % 3 == 1:
             return plain[:-1]
         i = (how // 3) % len(plain)
-        return plain[:i] + [("~", plain[i])] + plain[i + 1:]
+        return plain[:i] + ["~"] + plain[i + 1:]
     d = dict(plain)
     if how % 3 == 0 or not d:
         d["~extra"] = 1
@@ -709,7 +734,7 @@ def perturb(plain, how):
     if how % 3 == 1:
         del d[k]
     else:
-        d[k] = ("~", d[k])
+        d[k] = "~"
     return d
 
 
@@ -769,6 +794,9 @@ def real_access(r, acc, e):
                 return UNDEF
             plain = eager_plain(e)
             o = acc["o"]
+            if o == "diff":
+                plain = perturb(plain, acc.get("h", 0))
+                return val(bool(r == plain))
             if o == "same":
                 return val(bool(r == plain))
             if o == "refl":
@@ -776,7 +804,6 @@ def real_access(r, acc, e):
             if o == "lazy":
                 other = R.LazyDense(lambda: list(plain)) if isinstance(plain, list) else R.LazySparse(lambda: dict(plain))
                 return val(bool(r == other))
-            return val(bool(r == perturb(plain, acc.get("h", 0))))
         raise HarnessBug(acc)
     except HarnessBug:
         raise
@@ -859,36 +886,62 @@ def enccat_on_lazy(case):
     return False
 
 
-def classify(case, acc, exp, got):
-    """narrow signature of a (B) failure: the recorded defect classes are recognised by the shape of the case
-    (which mechanism the access goes through), everything else gets a signature naming kind / access / symptom / outermost stage.
-    acc is None for table-level failures (pipeline raised, row count)."""
+def areas(case, acc):
+    """the recorded defect classes whose mechanism this access (acc=None: the table as a whole) goes through,
+    decided from the shape of the case only; each entry is (signature, symptom predicate over (how, err, exp))"""
     kind = case["kind"]
     stages = case["stages"]
-    lp = label_pos(stages)
     ops = [st["op"] for st in stages]
-    err = got.get("e") if isinstance(got, dict) else None
-    how = "raises" if err else ("no-raise" if (exp and "e" in exp) else "wrong")
+    lp = label_pos(stages)
+    out = []
     if acc is not None and lp is not None and touches_label_part(acc) and any(effective(st) for st in stages[lp + 1:]):
-        return "%s:label-not-last" % kind
+        out.append(("%s:label-not-last" % kind, lambda how, err, exp: True))
     if enccat_on_lazy(case):
-        return "%s:enccat-on-lazy-row" % kind
+        out.append(("%s:enccat-on-lazy-row" % kind, lambda how, err, exp: True))
     if kind == "dense":
         if acc is not None and acc["a"] == "feats" and acc["sub"]["a"] in ("name", "headers"):
-            return "dense:feats-header-map"
-        if "encode" in ops and err == "TypeError" and (acc is None or leaf(acc)["a"] == "name"):
-            return "dense:name-through-EncodeDense"
-        if acc is not None and leaf(acc)["a"] == "headers" and how == "wrong" and exp.get("v") == [] and "drop" in ops:
-            return "dense:headers-after-dropping-all-columns"
+            out.append(("dense:feats-header-map", lambda how, err, exp: True))
+        if "encode" in ops and (acc is None or leaf(acc)["a"] == "name"):
+            out.append(("dense:name-through-EncodeDense", lambda how, err, exp: err == "TypeError"))
+        if acc is not None and leaf(acc)["a"] == "headers" and "drop" in ops:
+            out.append(("dense:headers-after-dropping-all-columns", lambda how, err, exp: how == "wrong" and exp.get("v") == []))
     else:
-        if acc is not None and leaf(acc)["a"] == "len" and case["base"]["wrap"] == "arff" and how == "wrong":
-            return "sparse:len-ignores-default-entries"
-        for i, st in enumerate(stages):
-            if st["op"] == "encode" and any(x["op"] in ("encode", "label") or (x["op"] == "drop" and x.get("pred")) for x in stages[i + 1:]):
-                return "sparse:absent-key-through-EncodeSparse"
+        if acc is not None and leaf(acc)["a"] == "len" and case["base"]["wrap"] == "arff":
+            out.append(("sparse:len-ignores-default-entries", lambda how, err, exp: how == "wrong"))
+        if "encode" in ops:
+            def later(how, err, exp):
+                for i, st in enumerate(stages):
+                    if st["op"] == "encode" and any(x["op"] in ("encode", "label") or (x["op"] == "drop" and x.get("pred")) for x in stages[i + 1:]):
+                        return True
+                return False
+            out.append(("sparse:absent-key-through-EncodeSparse", later, lambda exp: exp is None or "u" in exp or later(None, None, None)))
+    return out
+
+
+def classify(case, acc, exp, got):
+    """narrow signature of a (B) failure: the recorded defect classes are recognised by the shape of the case
+    (which mechanism the access goes through) plus the symptom; everything else gets a signature naming
+    kind / access / symptom / outermost stage.  acc is None for table-level failures (pipeline raised, row count)."""
+    kind = case["kind"]
+    err = got.get("e") if isinstance(got, dict) else None
+    how = "raises" if err else ("no-raise" if (exp and "e" in exp) else "wrong")
+    for a in areas(case, acc):
+        if a[1](how, err, exp or {}):
+            return a[0]
     if acc is None:
         return "%s:table:%s:last=%s" % (kind, how, last_wrapper(case))
     return "%s:%s:%s:last=%s" % (kind, acc_name(acc), how, last_wrapper(case))
+
+
+def suspended(case, acc, exp=None):
+    """(A) is not compared where an *open* recorded defect makes the unrepaired code differ from the model of the repaired code
+    (exp = what the eager row gives for the access; None for the table as a whole)"""
+    for a in areas(case, acc):
+        if a[0].endswith(":label-not-last") or not open_sig(a[0]):
+            continue
+        if len(a) < 3 or a[2](exp):
+            return True
+    return False
 
 
 def last_wrapper(case):
@@ -1308,63 +1361,127 @@ class C13(Property):
     # -------------------------------------------------------------- evaluation
     def evaluate(self, case, driver):
         fails, tags = [], []
-        real, et = run_real(case)
+        hook = sys.unraisablehook
+        sys.unraisablehook = lambda *a: None    # LazyDense._enc_all's bare `except` swallows GeneratorExit of abandoned iterations (stderr noise only)
+        try:
+            real, et = run_real(case)
+        finally:
+            sys.unraisablehook = hook
         kind = case["kind"]
+        nacc = len(case["acc"])
         tags.append("kind:" + kind)
         tags.append("base:" + case["base"]["wrap"] + ("+loader" if case["base"].get("loader") else "") + ("+enc" if case["base"].get("enc") else "") + ("+hdr" if case["base"].get("hdr") is not None else ""))
         tags.append("stages:%d" % len(case["stages"]))
         for st in case["stages"]:
             tags.append("op:" + st["op"] + (":pred" if st.get("pred") else ""))
-        tags.append("pipeline:" + ">".join(st["op"] for st in case["stages"]) if len(case["stages"]) <= 2 else "pipeline:3+")
+        tags.append("last:" + last_wrapper(case))
+        if label_pos(case["stages"]) is not None and any(effective(st) for st in case["stages"][label_pos(case["stages"]) + 1:]):
+            tags.append("label-not-last")
         n_valued = 0
+        bsig = [None] * nacc       # (B) failure signature per access
+        exps = [UNDEF] * nacc
+        tfail = None               # table-level (B) failure
         if real.get("eager_err"):
             tags.append("eager-undefined")
         if "pipe_err" in real:
-            tags.append("pipe-err:" + real["pipe_err"])
+            tags.append("pipe-err")
             if et is not None:
-                fails.append(F("B", "the lazy pipeline raised %s while the eager table is well defined (%d rows); stages %s" % (real["pipe_err"], len(et), json.dumps(case["stages"])),
-                               classify(case, None, None, {"e": real["pipe_err"]})))
+                tfail = classify(case, None, None, {"e": real["pipe_err"]})
+                fails.append(F("B", "the lazy pipeline raised %s while the eager table is well defined (%d rows); stages %s" % (real["pipe_err"], len(et), json.dumps(case["stages"])), tfail))
         elif et is not None:
             if real["n"] != len(et):
-                fails.append(F("B", "the lazy pipeline yields %d rows, the eager table has %d (row predicates %s)" % (real["n"], len(et), json.dumps([st.get("pred") for st in case["stages"] if st["op"] == "drop"])),
-                               classify(case, None, None, {"v": real["n"]})))
+                tfail = classify(case, None, None, {"v": real["n"]})
+                fails.append(F("B", "the lazy pipeline yields %d rows, the eager table has %d (row predicates %s)" % (real["n"], len(et), json.dumps([st.get("pred") for st in case["stages"] if st["op"] == "drop"])), tfail))
             elif not real.get("no_row"):
                 e = et[case["ri"]]
                 for j, acc in enumerate(case["acc"]):
                     got = real["first"][j]
                     exp = eager_access(e, acc)
+                    exps[j] = exp
                     tags.append("acc:" + acc_name(acc))
                     if "u" in got or "u" in exp:
-                        tags.append("undef:" + acc_name(acc))
-                        pass
+                        tags.append("no-eager-value:" + leaf(acc)["a"])
                     else:
                         if "v" in exp:
                             n_valued += 1
+                        else:
+                            tags.append("must-raise:" + leaf(acc)["a"])
                         if ("e" in exp) != ("e" in got) or ("v" in exp and exp["v"] != got["v"]):
+                            bsig[j] = classify(case, acc, exp, got)
                             fails.append(F("B", "row %d after %s: access %s gives %s, the eager row gives %s" % (
-                                case["ri"], json.dumps(case["stages"]), json.dumps(acc), json.dumps(got)[:300], json.dumps(exp)[:300]), classify(case, acc, exp, got)))
+                                case["ri"], json.dumps(case["stages"]), json.dumps(acc), json.dumps(got)[:300], json.dumps(exp)[:300]), bsig[j]))
                     # access order: permuted run on a fresh copy, then every access once more on the used copy
                     for other, what in ((real["second"][j], "in a different order on a fresh copy"), (real["again"][j], "again after all other accesses")):
                         if other is not None and other != got:
                             fails.append(F("B", "access %s returned %s first and %s when performed %s" % (json.dumps(acc), json.dumps(got)[:200], json.dumps(other)[:200], what),
-                                           "%s:order-dependent:%s" % (kind, acc_name(acc))))
+                                           "%s:order-dependent:%s" % (kind, leaf(acc)["a"])))
         if real.get("no_row"):
             tags.append("no-row")
         # (A) correspondence with the Lean model, (C) model vs spec
         model = None
         if driver is not None:
-            ans = driver.ask({"case": to_model(case)})
+            req = to_model(case, et, real.get("n"))
+            ans = driver.ask({"case": req})
             model = ans
+            m = ans["model"]
+            raw_first = list(m.get("first") or [])
+            if "first" in m:
+                m["first"] = [canon_model_obs(kind, a, o) for a, o in zip(case["acc"], m["first"])]
+            sp = ans.get("spec")
+            if sp and "first" in sp:
+                sp["first"] = [canon_model_obs(kind, a, o) for a, o in zip(case["acc"], sp["first"])]
             mreal = summarize_real(real)
-            if ans.get("model") != mreal:
-                d = first_diff(case, mreal, ans.get("model"))
-                fails.append(F("A", "implementation and model differ: %s" % d[0], "A:" + d[1]))
-            if ans.get("hyp") and ans.get("spec") is not None:
-                cd = spec_diff(case, ans["model"], ans["spec"])
-                if cd:
-                    fails.append(F("C", "model and spec differ though the hypotheses hold: %s" % cd, "C:refine"))
-            if ans.get("hyp"):
+            has_enccat = any(st["op"] == "enccat" and st.get("t") is not None for st in case["stages"])
+            # EncodeCatRows looks at the first row only to decide whether anything is categorical; the model decides per row.
+            # The two differ only when materialising some row raises, i.e. when the eager table is undefined.
+            susp_all = tfail is not None or (open_sig(kind + ":enccat-on-lazy-row") and enccat_on_lazy(case)) or (has_enccat and et is None)
+            susp_absent = suspended(case, None)
+            if susp_all or (susp_absent and ("pipe_err" in mreal) != ("pipe_err" in m)):
+                tags.append("A-suspended")
+            else:
+                d = None
+                if ("pipe_err" in mreal) != ("pipe_err" in m):
+                    d = ("pipeline error: implementation %s, model %s" % (json.dumps(mreal)[:150], json.dumps(m)[:150]), "pipe-err")
+                elif "pipe_err" in m:
+                    pass
+                elif mreal.get("n") != m.get("n") or bool(mreal.get("no_row")) != bool(m.get("no_row")):
+                    if not susp_absent:
+                        d = ("row count: implementation %s, model %s" % (mreal.get("n"), m.get("n")), "row-count")
+                elif "first" in m:
+                    for j, acc in enumerate(case["acc"]):
+                        if bsig[j] is not None:
+                            continue        # already reported as (B); the model mirrors the repaired code there
+                        if suspended(case, acc, exps[j]):
+                            tags.append("A-suspended-access")
+                            continue
+                        x, y = mreal["first"][j], m["first"][j]
+                        if "u" in x or "u" in y:
+                            continue        # == on a builtin list/tuple/dict object (not a coba row) / no right-hand side was sent
+                        if x != y:
+                            d = ("access %s: implementation %s, model %s (stages %s)" % (json.dumps(acc), json.dumps(x)[:200], json.dumps(y)[:200], json.dumps(case["stages"])[:300]),
+                                 "%s:%s:last=%s" % (kind, acc_name(acc), last_wrapper(case)))
+                            break
+                if d:
+                    fails.append(F("A", "implementation and model differ: %s" % d[0], "A:" + d[1]))
+            # (C) the theorems, at run time: model refines spec; a history of accesses = independent accesses
+            if ans.get("hyp") and sp is not None and "first" in m and "first" in sp:
                 tags.append("hyp")
+                lnl = "label-not-last" in tags
+                for j, acc in enumerate(case["acc"]):
+                    x, y = m["first"][j], sp["first"][j]
+                    if "u" in y or "u" in x:
+                        continue
+                    if lnl and touches_label_part(acc):
+                        continue            # forced hypothesis of feats_label (label stage last)
+                    if x != y:
+                        fails.append(F("C", "model and spec differ though the hypotheses hold: access %s: model %s, spec %s" % (json.dumps(acc), json.dumps(x)[:200], json.dumps(y)[:200]), "C:refine"))
+                        break
+            if ans.get("hyp") and sp is not None and ("pipe_err" in m or m.get("n") != sp.get("n")):
+                fails.append(F("C", "model table %s, spec table %s" % (json.dumps(m)[:100], json.dumps(sp)[:100]), "C:table"))
+            if "run" in m:
+                once = [o for a, o in zip(req["acc"], raw_first) if not is_skip(a)]
+                if m["run"] != once + once:
+                    fails.append(F("C", "model: a history of accesses on one row object differs from the same accesses on fresh rows", "C:order"))
         nontrivial = (len(case["stages"]) > 0 or case["base"]["wrap"] in ("lazy", "arff")) and n_valued >= 3
         return {"fails": fails, "nontrivial": nontrivial, "tags": tags, "impl": real, "model": model}
 
@@ -1429,8 +1546,81 @@ def after_enc(ctype, enc):
 
 
 # ------------------------------------------------------------------ model side helpers
-def to_model(case):
-    return case
+def cell_to_model(v):
+    if isinstance(v, Cat):
+        return {"cat": v.s, "lv": list(v.lv)}
+    if isinstance(v, tuple):
+        return {"tup": list(v)}
+    return v
+
+
+def other_side(e, acc):
+    """the explicit right-hand side of an == access, as sent to the model (None = no claim / not comparable)"""
+    if e is None or has_err(e):
+        return None
+    if isinstance(e, ED):
+        plain = list(e.vals)
+        if acc["o"] == "diff":
+            plain = perturb(plain, acc.get("h", 0))
+        return [cell_to_model(v) for v in plain]
+    plain = dict(e.d)
+    if acc["o"] == "diff":
+        plain = perturb(plain, acc.get("h", 0))
+    return [[k, cell_to_model(v)] for k, v in plain.items()]
+
+
+def acc_to_model(e, acc, plain_obj):
+    a = acc["a"]
+    if a == "feats":
+        fe = None
+        if e is not None:
+            try:
+                fe = eager_feats(e)
+            except Undefined:
+                fe = None
+        return {"a": "feats", "sub": acc_to_model(fe, acc["sub"], False)}
+    if a == "eq":
+        o = None if plain_obj else other_side(e, acc)
+        return {"a": "eq", "other": o} if o is not None else {"a": "skip"}
+    return acc
+
+
+def to_model(case, et, n_real):
+    """the request for the Lean driver: the case + per-row missing flags + explicit right-hand sides of =="""
+    e = et[case["ri"]] if (et is not None and case["ri"] < len(et)) else None
+    plain_obj = not any(effective(st) for st in case["stages"]) and case["base"]["wrap"] in ("plain", "tuple")
+    return {"kind": case["kind"], "base": case["base"], "rows": case["rows"], "stages": case["stages"], "ri": case["ri"],
+            "miss": [raw_missing(case["kind"], raw) for raw in case["rows"]],
+            "acc": [acc_to_model(e, a, plain_obj) for a in case["acc"]]}
+
+
+def is_skip(a):
+    return a.get("a") == "skip" or (a.get("a") == "feats" and is_skip(a["sub"]))
+
+
+def uniq_sorted(xs):
+    out = []
+    for x in sorted(xs, key=json.dumps):
+        if not out or out[-1] != x:
+            out.append(x)
+    return out
+
+
+def canon_model_obs(kind, acc, o):
+    """bring a model/spec observation into the form real_access produces (sets sorted, dicts as sorted pairs)"""
+    if o is None or "v" not in o:
+        return o
+    a = leaf(acc)["a"]
+    x = o["v"]
+    if kind == "sparse" and a in ("iter", "keys"):
+        return {"v": uniq_sorted(x)}
+    if kind == "sparse" and a in ("items", "copy"):
+        if len(uniq_sorted([p[0] for p in x])) != len(x):
+            return {"v": ["dup-keys", sort_pairs(x)]}
+        return {"v": sort_pairs(x)}
+    if a == "headers":
+        return {"v": sort_pairs(x)}
+    return o
 
 
 def summarize_real(real):
@@ -1446,37 +1636,6 @@ def summarize_real(real):
     if real.get("no_row"):
         return {"n": real["n"], "no_row": True}
     return {"n": real["n"], "first": [r(x) for x in real["first"]]}
-
-
-def first_diff(case, a, b):
-    if not isinstance(b, dict):
-        return ("model gave %s" % json.dumps(b)[:200], "shape")
-    if ("pipe_err" in a) != ("pipe_err" in b):
-        return ("pipeline error: implementation %s, model %s" % (json.dumps(a)[:150], json.dumps(b)[:150]), "pipe-err")
-    if a.get("n") != b.get("n"):
-        return ("row count: implementation %s, model %s" % (a.get("n"), b.get("n")), "row-count")
-    fa, fb = a.get("first") or [], b.get("first") or []
-    for j, acc in enumerate(case["acc"]):
-        x = fa[j] if j < len(fa) else None
-        y = fb[j] if j < len(fb) else None
-        if x != y:
-            return ("access %s: implementation %s, model %s (stages %s)" % (json.dumps(acc), json.dumps(x)[:200], json.dumps(y)[:200], json.dumps(case["stages"])[:300]),
-                    "%s:%s:last=%s" % (case["kind"], acc_name(acc), last_wrapper(case)))
-    return ("summaries differ: %s vs %s" % (json.dumps(a)[:200], json.dumps(b)[:200]), "other")
-
-
-def spec_diff(case, model, spec):
-    if "pipe_err" in model or model.get("no_row"):
-        return None
-    fm, fs = model.get("first") or [], spec.get("first") or []
-    for j, acc in enumerate(case["acc"]):
-        x = fm[j] if j < len(fm) else None
-        y = fs[j] if j < len(fs) else None
-        if y is not None and "u" in y:
-            continue
-        if x != y:
-            return "access %s: model %s, spec %s" % (json.dumps(acc), json.dumps(x)[:200], json.dumps(y)[:200])
-    return None
 
 
 PROPERTY = C13()
